@@ -555,7 +555,10 @@ Definition step (w : world) (o : op) : world * out :=
             | Some (b0, o0) =>
                 match admit_set w n b0 uidc set with
                 | Err _ => (set_box w n b0, o0 ++ [(s, RBad)])
-                | Ok (b1, o1, sel) =>
+                | Ok (b1a, o1a, sel) =>
+                    (* let through: what was queued while the command waited (the resync's notes) goes out first *)
+                    let '(b1, o1b) := flush b1a s in
+                    let o1 := o1a ++ o1b in
                     if smem "\Recent" flags || existsb reserved_kw flags then (set_box w n b1, o0 ++ o1 ++ [(s, RNo)])
                     else
                       let ms := map_at (apply_store act (map flag_to_seq flags)) sel (b_msgs b1) 1 in
@@ -577,7 +580,9 @@ Definition step (w : world) (o : op) : world * out :=
             | Some (b0, o0) =>
                 match admit_set w n b0 uidc set with
                 | Err _ => (set_box w n b0, o0 ++ [(s, RBad)])
-                | Ok (b1, o1, sel) =>
+                | Ok (b1a, o1a, sel) =>
+                    let '(b1, o1b) := flush b1a s in
+                    let o1 := o1a ++ o1b in
                     let ms := b_msgs b1 in
                     (* the data items, computed on the flags as they are before this FETCH's side effects *)
                     let items := flat_map (fun p => match znth ms (p - 1) with
@@ -618,10 +623,15 @@ Definition step (w : world) (o : op) : world * out :=
         end)
   | OSearch s uidc flag =>
       in_mbox w s (fun n b =>
-        match gate b s uidc false with
+        (* do_search does not send the queue when the command arrives, only once it has been let through; the
+           issuer is sent the same responses in the same order either way (an EXISTS of the resync is queued
+           behind a non-empty queue), so the model flushes at both points like FETCH and STORE *)
+        match gate b s uidc true with
         | None => (w, [(s, RNo)])
         | Some (b0, o0) =>
-            let '(b1, o1) := admit_cmd w n b0 in
+            let '(b1a, o1a) := admit_cmd w n b0 in
+            let '(b1, o1b) := flush b1a s in
+            let o1 := o1a ++ o1b in
             let hits := map fst (filter (fun p => has_seq (flag_to_seq flag) (snd p))
                                         (combine (map (fun i => Z.of_nat i + 1) (seq 0 (List.length (b_msgs b1)))) (b_msgs b1))) in
             let res := if uidc then uids_at (b_msgs b1) hits else hits in
